@@ -11,6 +11,7 @@ import (
 
 	"github.com/elementsproject/peerswap/swap"
 	"github.com/elementsproject/peerswap/verifsim/rt"
+	"github.com/lightningnetwork/lnd/lnrpc/routerrpc"
 )
 
 // SimLN is the simulated Lightning network: channels, invoices, HTLCs.
@@ -22,6 +23,7 @@ type SimLN struct {
 	Payments []*Payment
 	payIdx   int
 	notif    map[string][]*notifier // by hash
+	settleSubs map[string][]func(*Invoice)
 }
 
 type Channel struct {
@@ -211,11 +213,31 @@ func (l *SimLN) lnFault(idx int) *LNFault {
 // Pay implements the outgoing-payment calls of the LightningClient stub.
 // It runs in the calling node's task.
 func (l *SimLN) Pay(n *Node, fn, payreq, scid string, maxCLTV uint32) (string, error) {
+	return l.PayVia(n, &PayArgs{Fn: fn, Payreq: payreq, Scid: scid, MaxCLTV: maxCLTV})
+}
+
+// PayArgs describes one outgoing payment call. Lnd is set when the call is a
+// SendPaymentV2 request emitted by the real lnd adapter (tier 2): the request
+// itself then says which channel, which CLTV limit and how many parts.
+type PayArgs struct {
+	Fn      string
+	Payreq  string
+	Scid    string
+	MaxCLTV uint32
+	Lnd     *routerrpc.SendPaymentRequest
+}
+
+func (l *SimLN) PayVia(n *Node, a *PayArgs) (string, error) {
+	fn, payreq, scid, maxCLTV := a.Fn, a.Payreq, a.Scid, a.MaxCLTV
 	w := l.w
 	f := n.op("ln.pay")
 	l.payIdx++
 	idx := l.payIdx
 	po := &PayObs{Idx: idx, Payer: n.ID, Payreq: payreq, Scid: scid, Fn: fn, MaxCLTV: maxCLTV, BtcHeight: w.BTC.Height(), LHeight: w.LBTC.Height()}
+	if a.Lnd != nil {
+		po.Lnd = &LndPayReq{OutgoingChanIds: append([]uint64(nil), a.Lnd.OutgoingChanIds...), OutgoingChanId: a.Lnd.OutgoingChanId, MaxParts: a.Lnd.MaxParts, CltvLimit: a.Lnd.CltvLimit,
+			FeeLimitMsat: a.Lnd.FeeLimitMsat, AmtMsat: a.Lnd.AmtMsat, Amt: a.Lnd.Amt, TimeoutSeconds: a.Lnd.TimeoutSeconds, HasDest: len(a.Lnd.Dest) > 0, LastHopPubkey: len(a.Lnd.LastHopPubkey) > 0}
+	}
 	body, derr := DecodePayreqBody(payreq)
 	if body != nil {
 		po.Hash = body.H
@@ -238,17 +260,54 @@ func (l *SimLN) Pay(n *Node, fn, payreq, scid string, maxCLTV uint32) (string, e
 		return finish("", derr)
 	}
 	ch := l.channel(scid)
+	if ch == nil && a.Lnd != nil && scid == "" {
+		// lnd request without a first hop: any active channel to the invoice's destination
+		for _, k := range rt.SortedKeys(l.Channels) {
+			if c := l.Channels[k]; c.Active && c.peerOf(n.ID) >= 0 && w.Nodes[c.peerOf(n.ID)].Pubkey == body.D {
+				ch = c
+				w.Probe("lnd:payment-without-first-hop")
+			}
+		}
+	}
 	if ch == nil || ch.peerOf(n.ID) < 0 || !ch.Active {
+		if a.Lnd != nil {
+			return finish("", errors.New("payment failure FAILURE_REASON_NO_ROUTE"))
+		}
 		return finish("", errors.New("channel not found"))
 	}
 	peer := ch.peerOf(n.ID)
 	if body.D != w.Nodes[peer].Pubkey {
+		if a.Lnd != nil {
+			// lnd would look for a route through the first hop to another node; the simulated
+			// network has direct channels only
+			return finish("", errors.New("payment failure FAILURE_REASON_NO_ROUTE"))
+		}
 		return finish("", errors.New("destination pubkey in invoice does not match remote pubkey of channel"))
 	}
 	// route CLTV the adapter's request permits (flavour formula; see DESIGN C05)
 	permitted := uint32(body.C + 1)
 	if n.Flavor == "lnd" {
 		permitted = uint32(body.C + 3 + 1)
+	}
+	if a.Lnd != nil {
+		// the real request: lnd routes only within cltv_limit (0 = its own maximum of 2016
+		// blocks); a direct payment needs the invoice's final delta plus lnd's block padding
+		permitted = 2016
+		if a.Lnd.CltvLimit > 0 {
+			permitted = uint32(a.Lnd.CltvLimit)
+		}
+		if body.C < 0 || uint32(body.C)+3 > permitted {
+			return finish("", errors.New("payment failure FAILURE_REASON_NO_ROUTE"))
+		}
+		if len(a.Lnd.OutgoingChanIds) == 0 && a.Lnd.OutgoingChanId == 0 {
+			// no first hop given: lnd picks any channel to the destination
+			for _, k := range rt.SortedKeys(l.Channels) {
+				if c := l.Channels[k]; c.peerOf(n.ID) == peer && c.Active {
+					ch = c
+				}
+			}
+		}
+		maxCLTV = 0
 	}
 	if maxCLTV != 0 {
 		req := uint32(body.C + 1)
@@ -422,8 +481,25 @@ func (l *SimLN) failHTLC(p *Payment, reason string) {
 	p.Wake.Fire()
 }
 
+// OnSettle registers a listener for the settlement of an invoice (the simulated
+// lnd's SubscribeSingleInvoice); called right away (a little later) if it is settled already.
+func (l *SimLN) OnSettle(hash string, fn func(inv *Invoice)) {
+	if l.settleSubs == nil {
+		l.settleSubs = map[string][]func(*Invoice){}
+	}
+	l.settleSubs[hash] = append(l.settleSubs[hash], fn)
+	if inv := l.Invoices[hash]; inv != nil && inv.State == "settled" {
+		l.w.Sim.After(ms(5), "ln", "notify-settled", func() { fn(inv) })
+	}
+}
+
 func (l *SimLN) fireNotifiers(inv *Invoice) {
 	w := l.w
+	subs := l.settleSubs[inv.Hash]
+	delete(l.settleSubs, inv.Hash)
+	for _, fn := range subs {
+		fn(inv)
+	}
 	for _, nf := range l.notif[inv.Hash] {
 		if nf.fired {
 			continue
@@ -467,9 +543,22 @@ func (l *SimLN) AddNotifier(n *Node, swapID, payreq string, typ swap.InvoiceType
 
 // Recover implements RecoverClaimPayment: follow an existing payment only.
 func (l *SimLN) Recover(n *Node, payreq string) (string, error) {
+	body, err := DecodePayreqBody(payreq)
+	if err != nil {
+		n.op("ln.recover")
+		return "", err
+	}
+	return l.recover(n, payreq, body.H)
+}
+
+// RecoverHash is Recover by payment hash (lnd's TrackPaymentV2).
+func (l *SimLN) RecoverHash(n *Node, hash string) (string, error) { return l.recover(n, "", hash) }
+
+func (l *SimLN) recover(n *Node, payreq, hash string) (string, error) {
 	w := l.w
 	f := n.op("ln.recover")
-	body, err := DecodePayreqBody(payreq)
+	var err error
+	body := &payreqBody{H: hash}
 	po := &PayObs{Payer: n.ID, Payreq: payreq, Fn: "RecoverClaimPayment", BtcHeight: w.BTC.Height(), LHeight: w.LBTC.Height()}
 	if body != nil {
 		po.Hash = body.H
